@@ -81,6 +81,15 @@ CHECKS = {
             'Snapshot at sampled/every macro-step boundary by pickle and deepcopy of the whole object graph (bound peer, property '
             'statechart); lock-step comparison of everything observable afterwards, incl. the __old__ values read by contracts.',
             'trusted: in-context log; boundaries and methods enumerated per case, cases sampled', '§4 C18'),
+    'C19': ('exploration', 'runtime end-to-end differential monitor: behave/execute_bdd statuses in a child process vs facts recomputed on a plain interpreter',
+            'Generated executable charts and feature files using every predefined step in the documented spelling; every step status '
+            'must match the oracle (passed until the first false fact, that one failed, rest skipped); sismic.testing predicates vs '
+            'direct readings of random MacroStep lists.',
+            'trusted: the plain-interpreter oracle in vf/props/c19.py; behave 1.3.3 JSON formatter', '§4 C19'),
+    'C20': ('exploration', 'runtime monitor: controlled scheduler (interposed Events/thread/time/bisect/queue lists, logical deadlock detection) + free-running stress, client-boundary history checker',
+            'Seeded interleavings of runner vs 1-3 client threads at interposed synchronisation points (three strategies) and real-thread '
+            'stress runs; the recorded history is checked for reporting, exactly-once/FIFO/due order/bounded progress and lifecycle rules.',
+            'trusted: cooperative look-alikes in vf/sched.py; only interleavings at interposed points (controlled) or produced by the OS (stress)', '§4 C20'),
 }
 
 NOT_YET = {
